@@ -378,6 +378,195 @@ def check_legacy(repo: Repo, rep: Report) -> None:
         raise AnalysisError("anchor vanished: SUDOKU_COMBINATOR")
 
 
+def _slalom_expect(h: int, w: int, extra_black: List[Tuple[int, int]], gates: List[Tuple[int, int, int, int, int]]):
+    """what the URL has to say: gate cells ('2' vertical, '3' horizontal), black cells = the given ones plus the in-board cells at
+    both ends of every gate, and for each numbered gate its number on at least one of its end cells"""
+    cell: Dict[Tuple[int, int], str] = {c: "1" for c in extra_black}
+    ends_of = []
+    for (y, x, d, ln, n) in gates:
+        ends = []
+        for i in range(ln):
+            cell[(y, x + i) if d == 0 else (y + i, x)] = "3" if d == 0 else "2"
+        for c in (((y, x - 1), (y, x + ln)) if d == 0 else ((y - 1, x), (y + ln, x))):
+            if 0 <= c[0] < h and 0 <= c[1] < w:
+                ends.append(c)
+                cell[c] = "1"
+        ends_of.append((n, ends))
+    return cell, ends_of
+
+
+def check_extra_writers(repo: Repo, rep: Report) -> None:
+    """URL writers of modules the property's module list does not name (its statement says 'every URL-producing function'):
+    nanro, nurimaze, slalom.  Nothing raises on well-formed problems of non-square boards, header order, and the body is read back
+    by reference decoders (border bits, number16, run-length cells)."""
+    from ..core.fde import KInt
+
+    rep.rule("URL-W", "further URL writers (nanro, nurimaze, slalom): nothing raises on non-square boards, no height/width role is exchanged, "
+                      "and a reference decoder reads the body back as the problem")
+    # ---- nanro: borders + number16 ---------------------------------------------------------------
+    file, fn = "cspuz/puzzle/nanro.py", "problem_to_pzv_url"
+    if repo.has(file) and fn in repo.mod(file).funcs:
+        rep.saw(file, fn)
+        try:
+            w = SerWorld(repo, "nanro")
+            bad = None
+            n = 0
+            for h, wd, rooms in room_cases()[::2] + [(1, 23, [[(0, x) for x in range(23)]])]:
+                for fill in (0, 1):
+                    n += 1
+                    num = [[((y * wd + x) % 3 + 14 * ((y + x) % 2)) * fill if (y, x) != (h - 1, wd - 1) else 2 for x in range(wd)] for y in range(h)]
+                    st, url = w.call(fn, h, wd, rooms, num)
+                    if st != "ok":
+                        bad = bad or f"{fn}({h}, {wd}, {rooms}, {num}) raises {url}"
+                        continue
+                    msg = header_ok(url, ["nanro"], h, wd)
+                    if msg:
+                        bad = bad or f"{fn}({h}, {wd}, ...) -> {url!r}: {msg}"
+                        continue
+                    body = P.split_url(url)[1][2]
+                    try:
+                        ref, i = P.border(body, h, wd)
+                        vals, _ = P.number16(body[i:], h * wd, 0, "?")
+                        if canon_rooms(ref) != canon_rooms(rooms) or vals != flat(num):
+                            bad = bad or f"{url!r}: reference decoder reads rooms {ref} numbers {vals}; problem has rooms {rooms}, numbers {flat(num)}"
+                    except (P.Bad, ValueError, IndexError) as ex:
+                        bad = bad or f"{url!r}: not decodable ({ex})"
+            if bad:
+                rep.finding("URL-W", file, fn, "nanro URL", bad)
+            else:
+                rep.ok("URL-W", f"nanro: {n} problems on non-square boards read back by the reference decoder", points=n)
+        except Undecided as ex:
+            rep.undecide("URL-W", f"nanro: {ex}")
+    # ---- nurimaze: raw border bits + S/G/circle/triangle cells -------------------------------------
+    file = "cspuz/puzzle/nurimaze.py"
+    if repo.has(file) and fn in repo.mod(file).funcs:
+        rep.saw(file, fn)
+        try:
+            w = SerWorld(repo, "nurimaze")
+            bad = None
+            n = 0
+            for h, wd in ((2, 3), (3, 2), (1, 4), (4, 1), (3, 4), (2, 20)):
+                for variant in range(3):
+                    n += 1
+                    wv = [[(x + y + variant) % 2 for x in range(wd - 1)] for y in range(h)]
+                    wh = [[(x * 2 + y + variant) % 3 % 2 for x in range(wd)] for y in range(h - 1)]
+                    mark = [[0] * wd for _ in range(h)]
+                    start, goal = (0, 0), (h - 1, wd - 1)
+                    if variant == 1:
+                        start, goal = goal, start
+                    if variant >= 1 and h * wd >= 4:
+                        mark[0][wd - 1] = 1
+                        mark[h - 1][0] = 2
+                    st, url = w.call(fn, h, wd, wv, wh, mark, start, goal)
+                    if st != "ok":
+                        bad = bad or f"{fn}({h}, {wd}, ...) raises {url}"
+                        continue
+                    msg = header_ok(url, ["nurimaze"], h, wd)
+                    if msg:
+                        bad = bad or f"{fn}({h}, {wd}, ...) -> {url!r}: {msg}"
+                        continue
+                    body = P.split_url(url)[1][2]
+                    try:
+                        vb, hb, i = P.border_bits(body, h, wd)
+                        cells, _ = P.run_cells(body[i:], h * wd, "1234", "5")
+                        want = []
+                        for y in range(h):
+                            for x in range(wd):
+                                want.append(str(mark[y][x] + 2) if mark[y][x] else ("1" if (y, x) == start else ("2" if (y, x) == goal else None)))
+                        if vb != flat(wv) or hb != flat(wh) or cells != want:
+                            bad = bad or (f"{url!r}: reference decoder reads walls {vb} / {hb} and cells {cells}; the problem has walls {flat(wv)} / {flat(wh)} "
+                                          f"and cells {want} (1 = S, 2 = G, 3 = circle, 4 = triangle)")
+                    except (P.Bad, ValueError, IndexError) as ex:
+                        bad = bad or f"{url!r}: not decodable ({ex})"
+            if bad:
+                rep.finding("URL-W", file, fn, "nurimaze URL", bad)
+            else:
+                rep.ok("URL-W", f"nurimaze: {n} problems on non-square boards read back by the reference decoder", points=n)
+        except Undecided as ex:
+            rep.undecide("URL-W", f"nurimaze: {ex}")
+    # ---- slalom: cell kinds, clue numbers on the gate ends, origin ------------------------------------
+    file = "cspuz/puzzle/slalom.py"
+    if repo.has(file) and fn in repo.mod(file).funcs:
+        rep.saw(file, fn)
+        try:
+            bad = None
+            n = 0
+            cases = []
+            for h, wd in ((2, 3), (3, 2), (4, 2), (2, 4), (3, 4), (4, 3)):
+                # a vertical gate over the full height, one from the top edge ending inside the board, a horizontal one likewise
+                cases.append((h, wd, ((0, 0), [], [(0, wd - 1, 1, h, -1)])))
+                if h >= 3:
+                    cases.append((h, wd, ((h - 1, 0), [], [(0, wd - 1, 1, h - 1, -1)])))
+                    cases.append((h, wd, ((0, 0), [(0, 1)] if wd > 2 else [], [(1, wd - 1, 1, h - 1, 1)])))
+                if wd >= 3:
+                    cases.append((h, wd, ((h - 1, wd - 1), [], [(0, 0, 0, wd - 1, -1)])))
+                    cases.append((h, wd, ((h - 1, 0), [], [(0, 1, 0, wd - 1, 2)])))
+                if h >= 3 and wd >= 3:
+                    cases.append((h, wd, ((0, 0), [(h - 1, wd - 1)], [(1, 1, 1, 1, 17)] + ([(0, 3, 0, 1, -1)] if wd >= 4 else []))))
+            for h, wd, problem in cases:
+                n += 1
+                w = SerWorld(repo, "slalom")
+                w.cw.ev.strict_index = True
+                st, url = w.call(fn, KInt(h, "R", "ext"), KInt(wd, "C", "ext"), problem)
+                if st != "ok":
+                    bad = bad or f"{fn}({h}, {wd}, {problem}) raises {url}"
+                    continue
+                for text, comp, k, axis, line in w.cw.ev.kind_events[:1]:
+                    if str(axis).startswith("cmp:"):
+                        bad = bad or (f"{fn}({h}, {wd}, {problem}): `{text}` bounds the {'column' if k == 'C' else 'row'} position `{comp}` by the board's "
+                                      f"{'width' if axis[4:] == 'C' else 'height'} (line {line})")
+                    else:
+                        bad = bad or f"{fn}({h}, {wd}, {problem}): `{text}` uses the {'width' if k == 'C' else 'height'}-derived value `{comp}` on the other axis (line {line})"
+                if url is None:
+                    bad = bad or f"{fn}({h}, {wd}, {problem}) gives no URL for a well-formed problem"
+                    continue
+                sp = P.split_url(url) if isinstance(url, str) else None
+                if sp is None or sp[0] != "slalom" or len(sp[1]) < 5 or sp[1][1] != str(wd) or sp[1][2] != str(h):
+                    bad = bad or f"{fn}({h}, {wd}, ...) -> {url!r}: expected slalom/<variant>/{wd}/{h}/<body>/<origin>"
+                    continue
+                body, origin = sp[1][3], sp[1][4]
+                want_cell, ends_of = _slalom_expect(h, wd, problem[1], problem[2])
+                try:
+                    cells, i = P.run_cells(body, h * wd, "123", "4")
+                    want = [want_cell.get((y, x)) for y in range(h) for x in range(wd)]
+                    if cells != want:
+                        bad = bad or (f"{url!r}: reference decoder reads cells {cells}; the problem {problem} on a {h}x{wd} board has {want} "
+                                      "(1 = black incl. both ends of every gate, 2 / 3 = vertical / horizontal gate)")
+                        continue
+                    blacks = [(k // wd, k % wd) for k, c in enumerate(cells) if c == "1"]
+                    rest = body[i:]
+                    j = 0
+                    clue: Dict[Tuple[int, int], int] = {}
+                    b = 0
+                    while b < len(blacks):
+                        if j >= len(rest):
+                            raise P.Bad("clue section too short")
+                        c = rest[j]
+                        if "g" <= c <= "z":
+                            b += P.B36.index(c) - 15
+                            j += 1
+                        elif c in "0123456789":
+                            nd = 2 if int(c) >= 5 else 1
+                            clue[blacks[b]] = int(rest[j + 1:j + 1 + nd], 16)
+                            j += 1 + nd
+                            b += 1
+                        else:
+                            raise P.Bad(f"unexpected character {c!r} in the clue section")
+                    for nn, ends in ends_of:
+                        if nn != -1 and not any(clue.get(e) == nn for e in ends):
+                            bad = bad or f"{url!r}: gate number {nn} is on none of its end cells {ends} (clues read: {clue})"
+                    if origin != str(problem[0][0] * wd + problem[0][1]):
+                        bad = bad or f"{url!r}: origin field {origin}, expected {problem[0][0] * wd + problem[0][1]} (row-major index of {problem[0]})"
+                except (P.Bad, ValueError, IndexError) as ex:
+                    bad = bad or f"{url!r}: not decodable ({ex})"
+            if bad:
+                rep.finding("URL-W", file, fn, "slalom URL", bad)
+            else:
+                rep.ok("URL-W", f"slalom: {n} problems on non-square boards (gates touching every edge) read back by the reference decoder", points=n)
+        except Undecided as ex:
+            rep.undecide("URL-W", f"slalom: {ex}")
+
+
 URL_FMT = re.compile(r"\?\w+(/\w+)?/\{[^}]*\}/\{[^}]*\}")
 
 
@@ -442,6 +631,7 @@ def run(repo: Repo, rep: Report) -> None:
     check_grid_modules(repo, rep)
     check_room_modules(repo, rep)
     check_legacy(repo, rep)
+    check_extra_writers(repo, rep)
     check_format_order(repo, rep)
     rep.floor("URL-RT", 9)
     rep.assume("the reference decoders in sa/rules/pzpr_ref.py follow the published pzpr conventions (number16, 4-cell, base-3 circles, border bits, arrow numbers)")
